@@ -169,13 +169,9 @@ mutual
         pure (.case ws (← jOpt dTerm (fld j "else")) al)
     | "func" => do
         let schema ← jOpt (fun x => do (← x.getArr?).toList.mapM jStr) (fld j "schema")
-        let filters ← jOpt (fun x => do (← x.getArr?).toList.mapM dTerm) (fld j "filters")
-        let over ← jOpt (fun x => do
-          let part ← (← fArr x "partition").mapM dTerm
-          let obs ← (← fArr x "orderbys").mapM dOrdItem
-          pure (part, obs)) (fld j "over")
         pure (.func (← fStr j "name") schema (← ts "args") (← fBool j "distinct") (← fOptStr j "special")
-          (← jOpt dTerm (fld j "extract_from")) filters over (← jOpt dFrame (fld j "frame"))
+          (← jOpt dTerm (fld j "extract_from")) (← jOpt dTerm (fld j "filter")) (← fBool j "over")
+          (← ts "partition") (← (← fArr j "over_order").mapM dOrdItem) (← jOpt dFrame (fld j "frame"))
           (← fBool j "no_parens") al)
     | "param" => pure (.param (← fStr j "text"))
     | "interval" => pure (.interval (← dInterval (fld j "iv")))
@@ -194,9 +190,7 @@ mutual
 
   partial def dSrc (j : Json) : D Src := do
     match (← (fld j "k").getStr?) with
-    | "table" => do
-        let tmp ← jOpt (fun x => do pure ((← fBool x "portion"), (← dTerm (fld x "crit")))) (fld j "temporal")
-        pure (.table (← dTRef (fld j "t")) tmp)
+    | "table" => pure (.table (← dTRef (fld j "t")) (← fBool j "portion") (← jOpt dTerm (fld j "temporal")))
     | "query" => pure (.query (← dQuery (fld j "q")))
     | "setop" => pure (.setop (← dSetOp (fld j "s")))
     | "aliased" => pure (.aliased (← fStr j "name") (← jOpt dSrc (fld j "q")))
